@@ -901,10 +901,12 @@ pub fn gen_case_with(rng: &mut Rng, rep: &mut Report, hier: bool) -> Case {
         for f in iface_shape_features(&schema) {
             rep.count(&format!("feature:hier:{f}"));
         }
-        let n = inject_interface_conditions(rng, &schema, &mut doc);
-        if n > 0 {
-            rep.count("feature:hier:injected:fragments-on-every-applicable-interface");
-            rep.count_n("feature:hier:injected:interface-conditions", n as u64);
+        match inject_interface_conditions(rng, &schema, &mut doc) {
+            Ok(n) => {
+                rep.count("feature:hier:injected:fragments-on-every-applicable-interface");
+                rep.count_n("feature:hier:injected:interface-conditions", n as u64);
+            }
+            Err(why) => rep.count(&format!("feature:hier:not-injected:{why}")),
         }
     }
     // extra shapes the shared generator produces rarely: duplicate composite fields with conditioned
@@ -1052,28 +1054,53 @@ fn inject_conditioned_duplicate(rng: &mut Rng, schema: &SchemaModel, doc: &mut D
     true
 }
 
-/// For one or two composite root fields `f` (arguments all optional) of the first operation:
-/// `f { __typename  <one fragment per interface I that has a possible type in common with f's type> }` where each
+/// For one or two composite root fields `f` of the first operation — fields already selected with a sub-selection, or not
+/// yet selected ones whose arguments are all optional —: the sub-selection of `f` gets
+/// `__typename  <one fragment per interface I that has a possible type in common with f's type>` where each
 /// fragment is `... on I { leaf }`, a spread of a new `fragment InjIk on I { leaf }`, or either of them wrapped in
-/// `... on O { … }` for an object type O of both; `leaf` = a leaf field of I selected without arguments (or `__typename`).
+/// `... on O { … }` for an object type O of both; `leaf` = leaf fields of I selected without arguments (or `__typename`).
 /// Every object type below `f` thus meets a type condition on EVERY interface it implements (and on interfaces it does
-/// not implement). Same field name ⇒ same signature (pool), no arguments ⇒ the selections merge (5.3.2).
+/// not implement). Same field name ⇒ same signature (pool), no arguments, no alias ⇒ the selections merge (5.3.2).
 /// Returns the number of interface conditions added.
-fn inject_interface_conditions(rng: &mut Rng, schema: &SchemaModel, doc: &mut Doc) -> usize {
+fn inject_interface_conditions(rng: &mut Rng, schema: &SchemaModel, doc: &mut Doc) -> Result<usize, &'static str> {
     let ok_args = |g: &FieldDef| g.args.iter().all(|a| !a.ty.is_non_null() || a.default.is_some());
     let mut new_frags: Vec<FragDef> = vec![];
     let mut added = 0usize;
     {
-        let Some((op, _)) = first_op_sel(doc) else { return 0 };
+        let Some((op, _)) = first_op_sel(doc) else { return Err("no-operation") };
         if op.kind == OpKind::Subscription {
-            return 0;
+            return Err("subscription");
         }
-        let Some(rt) = schema.root(op.kind).and_then(|r| schema.type_def(r)) else { return 0 };
-        let mut cands: Vec<&FieldDef> = rt.fields.iter().filter(|f| ok_args(f) && schema.is_composite(f.ty.unwrapped())).collect();
-        rng.shuffle(&mut cands);
+        let Some(rt) = schema.root(op.kind).and_then(|r| schema.type_def(r)) else { return Err("no-root") };
+        // places: Ok(index of an existing root selection with a sub-selection) / Err(root field not selected yet)
+        let mut places: Vec<Result<usize, &FieldDef>> = vec![];
+        for (si, s) in op.sel.iter().enumerate() {
+            if let Sel::Field { name, sel: Some(_), .. } = s {
+                if rt.fields.iter().any(|f| &f.name == name && schema.is_composite(f.ty.unwrapped())) {
+                    places.push(Ok(si));
+                }
+            }
+        }
+        for f in &rt.fields {
+            if ok_args(f) && schema.is_composite(f.ty.unwrapped()) && !op.sel.iter().any(|s| s.response_key() == Some(f.name.as_str())) {
+                places.push(Err(f));
+            }
+        }
+        if places.is_empty() {
+            return Err("no-composite-root-field");
+        }
+        rng.shuffle(&mut places);
         let take = 1 + rng.below(2);
         let mut k = 0usize;
-        for (fi, f) in cands.into_iter().take(take).enumerate() {
+        for place in places.into_iter().take(take) {
+            let fname = match &place {
+                Ok(si) => match &op.sel[*si] {
+                    Sel::Field { name, .. } => name.clone(),
+                    _ => continue,
+                },
+                Err(f) => f.name.clone(),
+            };
+            let Some(f) = rt.fields.iter().find(|f| f.name == fname) else { continue };
             let target = f.ty.unwrapped().to_string();
             let poss = schema.possible_types(&target);
             let mut ifaces: Vec<String> = schema.types().filter(|t| t.kind == TypeKind::Interface && schema.possible_types(&t.name).iter().any(|o| poss.contains(o))).map(|t| t.name.clone()).collect();
@@ -1112,16 +1139,27 @@ fn inject_interface_conditions(rng: &mut Rng, schema: &SchemaModel, doc: &mut Do
                 sel.push(s);
                 added += 1;
             }
-            let key_used = op.sel.iter().any(|s| s.response_key() == Some(f.name.as_str()));
-            let alias = if key_used || rng.chance(1, 4) { Some((format!("injI{fi}"), P::default())) } else { None };
-            op.sel.push(Sel::Field { alias, name: f.name.clone(), name_pos: P::default(), args: vec![], dirs: vec![], sel: Some(sel) });
+            match place {
+                Ok(si) => {
+                    if let Sel::Field { sel: Some(ss), .. } = &mut op.sel[si] {
+                        ss.extend(sel);
+                    }
+                }
+                Err(_) => {
+                    let alias = if rng.chance(1, 4) { Some((format!("injI{k}x"), P::default())) } else { None };
+                    op.sel.push(Sel::Field { alias, name: fname, name_pos: P::default(), args: vec![], dirs: vec![], sel: Some(sel) });
+                }
+            }
         }
     }
     for f in new_frags {
         let at = rng.below(doc.defs.len() + 1);
         doc.defs.insert(at, ExecDef::Frag(f));
     }
-    added
+    if added == 0 {
+        return Err("no-interface-overlaps-the-chosen-fields");
+    }
+    Ok(added)
 }
 
 /// `injN: f { __typename: <leaf field> }` for an argument-less root field `f` of object type
